@@ -7,6 +7,7 @@ import (
 	"github.com/jmsadair/raft/verifshim/vsched"
 )
 
+//go:norace
 func Int63n(n int64) int64 {
 	if vsched.Active && vsched.RandHook != nil {
 		return vsched.RandHook(n)
@@ -17,6 +18,9 @@ func Int63n(n int64) int64 {
 	return rand.Int63n(n)
 }
 
+//go:norace
 func Intn(n int) int { return int(Int63n(int64(n))) }
+//go:norace
 func Int() int       { return int(Int63n(1 << 62)) }
+//go:norace
 func Int63() int64   { return Int63n(1 << 62) }
